@@ -369,18 +369,49 @@ theorem indexStep_len_zero (dec : Dec) (hnil : dec .brotli [] = none) (file : By
   · simp [hnil]
   · rfl
 
-/-- **C12, versatiles**: for every 34-byte header prefix, every metadata blob, every sequence of
+/-- the completed file of the versatiles operation sequence -/
+theorem run_opsV (pre metaC : Bytes) (mid : List Bytes) (idxC : Bytes) (hpre : pre.length = 34) :
+    (run (opsV pre metaC mid idxC)).file =
+      headerV pre 66 metaC.length (66 + metaC.length + mid.flatten.length) idxC.length ++
+        (metaC ++ mid.flatten ++ idxC) := by
+  let hdr0 := headerV pre 0 0 0 0
+  let hdrF := headerV pre 66 metaC.length (66 + metaC.length + mid.flatten.length) idxC.length
+  let bs : List Bytes := hdr0 :: metaC :: (mid ++ [idxC])
+  have hops : opsV pre metaC mid idxC = bs.map Op.append ++ [Op.writeStart hdrF] := by
+    simp [opsV, bs, hdr0, hdrF]
+  have hflat : bs.flatten = hdr0 ++ (metaC ++ mid.flatten ++ idxC) := by
+    simp [bs, List.append_assoc]
+  have h0len : hdr0.length = 66 := by simp [hdr0, headerV, beEnc_length, hpre]
+  have hFlen : hdrF.length = 66 := by simp [hdrF, headerV, beEnc_length, hpre]
+  have hA := (foldl_appends (w := W.empty) rfl bs).2
+  rw [hflat] at hA
+  simp only [W.empty, List.nil_append] at hA
+  generalize hwA : (bs.map Op.append).foldl W.apply { file := [], pos := 0 } = wA at hA
+  simp only [run, hops, List.foldl_append, List.foldl_cons, List.foldl_nil, W.empty, hwA]
+  simp only [W.apply, W.applyCut, Op.size, List.take_length]
+  split
+  · rename_i he; simp at he; rw [he] at hFlen; simp at hFlen
+  · rw [writeAt_zero, hA]
+    simp [hFlen, h0len, -List.length_flatten]
+    rfl
+
+/-- the block-index step of the open fails (whatever the header says otherwise) -/
+def IndexFails (dec : Dec) (s : Bytes) : Prop :=
+  ∀ hd, slice s 0 66 = some hd →
+    indexStepV dec s (beDec ((hd.drop 50).take 8)) (beDec ((hd.drop 58).take 8)) = none
+
+/-- core of C12 for versatiles (reader-independent form): for every 34-byte header prefix, every metadata blob, every sequence of
     appended tile / tile-index blobs and every block index stream `idxC`, if brotli rejects the
     empty input and every strict prefix of `idxC`, then every crash state of
     `VersaTilesWriter::write_to_writer` fails to open or is byte-identical to the completed file. -/
-theorem versatiles_crash_safe (dec : Dec) (pre metaC : Bytes) (mid : List Bytes) (idxC : Bytes)
+theorem versatiles_crash_index (dec : Dec) (pre metaC : Bytes) (mid : List Bytes) (idxC : Bytes)
     (hpre : pre.length = 34)
     (hoff : 66 + metaC.length + mid.flatten.length < 256 ^ 8) (hlen : idxC.length < 256 ^ 8)
     (hnil : dec .brotli [] = none)
     (hprefix : ∀ p, p <+: idxC → p ≠ idxC → dec .brotli p = none)
     (i k : Nat) :
     let ops := opsV pre metaC mid idxC
-    openV dec (crash ops i k) = none ∨ crash ops i k = (run ops).file := by
+    IndexFails dec (crash ops i k) ∨ crash ops i k = (run ops).file := by
   intro ops
   -- the appended blobs and the two headers
   let hdr0 := headerV pre 0 0 0 0
@@ -410,9 +441,8 @@ theorem versatiles_crash_safe (dec : Dec) (pre metaC : Bytes) (mid : List Bytes)
     · rw [writeAt_zero, hA]
       simp [hFlen, h0len]
   -- a state whose first 66 bytes are the provisional header does not open
-  have hprov : ∀ s : Bytes, s <+: hdr0 ++ rest → openV dec s = none := by
+  have hprov : ∀ s : Bytes, s <+: hdr0 ++ rest → IndexFails dec s := by
     intro s hs
-    apply openV_none_of_index
     intro hd hhd
     obtain ⟨e, hl⟩ := slice_zero_66 hhd
     have hd0 : hd = hdr0 := by
@@ -480,7 +510,6 @@ theorem versatiles_crash_safe (dec : Dec) (pre metaC : Bytes) (mid : List Bytes)
           by_cases hk58 : k ≤ 58
           · -- the block-index length field is still zero
             left
-            apply openV_none_of_index
             intro hd hhd
             rw [hslice hd hhd]
             have hz : (H.drop 58).take 8 = zeros 8 := by
@@ -526,7 +555,6 @@ theorem versatiles_crash_safe (dec : Dec) (pre metaC : Bytes) (mid : List Bytes)
               rw [hHeq, this]
               rfl
             · left
-              apply openV_none_of_index
               intro hd hhd
               rw [hslice hd hhd, hHeq, hf.2.2.1, hf.2.2.2, hCv]
               have hvlt : beDec D' < idxC.length := by
@@ -549,6 +577,23 @@ theorem versatiles_crash_safe (dec : Dec) (pre metaC : Bytes) (mid : List Bytes)
                 have := congrArg List.length he
                 simp at this
                 omega
+
+/-- **C12, versatiles**: for every 34-byte header prefix, every metadata blob, every sequence of
+    appended tile / tile-index blobs and every block index stream `idxC`, if brotli rejects the
+    empty input and every strict prefix of `idxC`, then every crash state of
+    `VersaTilesWriter::write_to_writer` fails to open or is byte-identical to the completed file. -/
+theorem versatiles_crash_safe (dec : Dec) (pre metaC : Bytes) (mid : List Bytes) (idxC : Bytes)
+    (hpre : pre.length = 34)
+    (hoff : 66 + metaC.length + mid.flatten.length < 256 ^ 8) (hlen : idxC.length < 256 ^ 8)
+    (hnil : dec .brotli [] = none)
+    (hprefix : ∀ p, p <+: idxC → p ≠ idxC → dec .brotli p = none)
+    (i k : Nat) :
+    let ops := opsV pre metaC mid idxC
+    openV dec (crash ops i k) = none ∨ crash ops i k = (run ops).file := by
+  intro ops
+  rcases versatiles_crash_index dec pre metaC mid idxC hpre hoff hlen hnil hprefix i k with h | h
+  · exact Or.inl (openV_none_of_index dec _ h)
+  · exact Or.inr h
 
 /-! ### writing over an existing file
 
